@@ -189,11 +189,25 @@ package client
 //@ func (*Conn) checkMyMessageID(req *pool.Message)
 //@   trusted
 //
+// handleSpecialMessages (C06: matching by message ID): a message whose ID is pending removes that entry
+// in one atomic step of the table, so no further copy of the request is sent; the stored clone goes
+// back to the pool, and the waiting writer is woken exactly once (its continuation is called with the
+// message). Pings are answered through the normal request path; a separate empty ACK without a
+// pending entry is dropped.
+//
 //@ func (*Conn) handleSpecialMessages(r *pool.Message) (handled bool)
-//@   trusted
+//@   requires cc != nil && r != nil && cc.midHandlerContainer != nil && sortedOpts(r.msg.Options)
+//@   modifies anything
+//@   opaque-calls pure
+//@   lockinv [no-nil-element] forall k int :: {present(cc.midHandlerContainer.data, k)} present(cc.midHandlerContainer.data, k) ==> cc.midHandlerContainer.data[k] != nil
+//@   ensures [ping-answered] callRes(IsPing, 0, 0) ==> handled && callCount(ProcessReceivedMessageWithHandler) == 1 && notCalled(LoadAndDelete)
+//@   ensures [matched-by-message-id] !callRes(IsPing, 0, 0) ==> callCount(LoadAndDelete) == 1 && callArg(LoadAndDelete, 0, 1) == old(r.msg.MessageID)
+//@   ensures [pending-entry-ends] called(LoadAndDelete) && callRes(LoadAndDelete, 0, 1) ==> !handled && callCount(handler) == 1 && callArg(handler, 0, 1) == r && callArg(ReleaseMessage, 0, 0) == callRes(LoadAndDelete, 0, 0) && callSeq(LoadAndDelete, 0) < callSeq(handler, 0)
+//@   ensures [response-message-balanced] called(LoadAndDelete) && callRes(LoadAndDelete, 0, 1) ==> callCount(AcquireMessage) == 1 && callCount(ReleaseMessage) == 2 && callSeq(ReleaseMessage, 1) == callsTotal() - 1
+//@   ensures [nothing-pending] called(LoadAndDelete) && !callRes(LoadAndDelete, 0, 1) ==> notCalled(handler) && notCalled(AcquireMessage) && (handled <==> callRes(IsSeparateMessage, 0, 0))
 //
 //@ func (*Conn) Process(cm *coapNet.ControlMessage, datagram []byte) (err error)
-//@   requires cc != nil && len(datagram) < 1099511627776
+//@   requires cc != nil && len(datagram) < 1099511627776 && cc.midHandlerContainer != nil
 //@   modifies anything
 //@   opaque-calls pure
 //@   ensures [every-message-counts] called(UnmarshalWithDecoder) && callRes(UnmarshalWithDecoder, 0, 1) == nil && called(requestMonitor) && callRes(requestMonitor, 0, 1) == nil && !callRes(requestMonitor, 0, 0) ==> called(Notify)
